@@ -74,7 +74,7 @@ P = D.DesignProperty(
     rule=("case = generated design spec in the reference domain with few enough valid sequences to enumerate; RandomGen is asked for "
           "3 more than exist; non-trivial = at least 2 distinct valid sequences and a derived factor, constraint or weight present; "
           "class count-checked = single-round designs without complex windows or rejection-enforced constraints; distinct = distinct spec JSON"),
-    cfg_quick=CFG, n_quick=60, n_thorough=2000, case_limit=(15, 120),
+    cfg_quick=CFG, n_quick=60, n_thorough=600, case_limit=(15, 120),
     limits={"max_T": {"quick": 7, "thorough": 9}, "max_seqs": {"quick": 300, "thorough": 3000}},
     assumptions=["vp/ref.py implements the documented semantics", "termination is judged by the per-case time limit: a time-out is inconclusive, not a violation"])
 P.export(globals())
